@@ -436,3 +436,27 @@ Proof.
   f_equal. apply state_ext; cbn; try reflexivity.
   intro x. rewrite !upd_same. reflexivity.
 Qed.
+
+(* ---- Connection.pause_writing / resume_writing and the deadline coroutine ------------------------------ *)
+Lemma deadline_seconds_is_grace : Connection_deadline_seconds = grace.
+Proof. reflexivity. Qed.
+
+Lemma Connection_pause_writing_eq : forall q s,
+  Connection_pause_writing q s = BOk false (modc q (set_timer (Some grace)) s).
+Proof. intros q s. unfold Connection_pause_writing; unf. unfold p_start_timer. rewrite deadline_seconds_is_grace. reflexivity. Qed.
+
+Lemma set_timer_none_id : forall c, timer c = None -> set_timer None c = c.
+Proof. intros [] H; cbn in H; subst; reflexivity. Qed.
+
+Lemma Connection_resume_writing_eq : forall q s,
+  Connection_resume_writing q s = BOk false (modc q (set_timer None) s).
+Proof.
+  intros q s. unfold Connection_resume_writing; unf. unfold timer_running, p_cancel_timer.
+  destruct (timer (conns s q)) eqn:T; [reflexivity|].
+  unfold retB. cbn. f_equal. unfold modc. apply state_ext; cbn; try reflexivity.
+  intro x. unfold upd. destruct (Nat.eqb x q) eqn:E; [|reflexivity].
+  apply Nat.eqb_eq in E; subst. symmetry; apply set_timer_none_id; exact T.
+Qed.
+
+Lemma Connection_deadline_expired_eq : forall q s, Connection_deadline_expired q s = BOk false (bad q s).
+Proof. intros q s. unfold Connection_deadline_expired; unf. reflexivity. Qed.
